@@ -25,6 +25,8 @@ SNIPPETS = [
     "PROGRAM Cm\nVAR\n    counter : INT;\n    (* x : INT; old\n       y : DINT *)\n    x : INT;\nEND_VAR\n    counter := 1;\n    (* x:=2; disabled\n       f(a => 3) *)\n    x := 4;\n    longer_name := 5;\n    {attribute 'k := v'\n     'w => z'}\n    x := 6;\n    /* y:=7; off\n    */\nEND_PROGRAM\n",
     # initialisers continued on the next line of a VAR block: the first ':' of the continuation lies inside a literal
     "PROGRAM Ini\nVAR\n  times : ARRAY[0..1] OF TOD :=\n    [TOD#08:30:00, TOD#09:15:00];\n  name : STRING := 'a:b';\n  x : INT;\n  note : STRING :=\n    'k: v';\n  verylongname_for_alignment : DT :=\n    DT#2024-01-01-12:00:00;\nEND_VAR\nx := 1;\nEND_PROGRAM\n",
+    # a comment that is never closed: the rest of the file, trailing line break included, is one token
+    "PROGRAM U\nVAR x : INT; END_VAR\nx   :=   1;\n(* unterminated   comment\nx := 2;\nEND_PROGRAM\n",
     "PROGRAM Tm\nVAR\n  start : TOD := TOD#08:30:00;\n  d : DT := DT#2024-01-01-12:00:00;\n  span : TIME := T#1h2m;\n  a,\n  b : INT;\n  verylongvariablename : DINT := 5;\nEND_VAR\nstart := TOD#09:15:00;\nEND_PROGRAM\n",
 ]
 
@@ -201,7 +203,10 @@ def check(tier):
         # lines on which a comment or pragma that continues on later lines starts: the line-oriented passes must leave them alone
         tl = text.split("\n")
         hot = [i for i, l in enumerate(tl) if ("(*" in l and "*)" not in l.split("(*")[-1]) or ("/*" in l and "*/" not in l.split("/*")[-1]) or ("{" in l and "}" not in l.split("{")[-1])]
-        if hot and rng.chance(1, 2):
+        if rng.chance(1, 10):
+            # the empty last line after the final line break
+            line = nl - 1; a = b = nl - 1
+        elif hot and rng.chance(1, 2):
             line = rng.pick(hot)
             if rng.chance(1, 2): a = line; b = min(nl - 1, a + rng.below(2))
         cases.append({"id": "c%d" % k, "text": text, "config": cfg, "options": opts, "range": [a, 0, b, rng.pick([0, 0, 5, 200])], "line": line})
